@@ -18,26 +18,38 @@ fn find_records(root: &std::path::Path) -> Vec<(u64, PathBuf)> {
 }
 
 #[derive(Clone, Debug)]
-enum Fault { Delete, Truncate(usize), Field(usize, u64) }
+enum Fault { Delete, Truncate(usize), Field(usize, u64), Entry(usize, usize, u64) }   // Entry(0 = modified index | 1 = previous hole, j, value)
 
-fn build<V: StoredVec<I = usize, T = u32>>(variant: usize) -> (PathBuf, Database, V, Vec<Vec<u32>>) {
+// what a reader sees (values of the non-deleted slots) plus the deleted-slot set; the raw-only edits of history variant 2
+trait Probe { fn snap(&mut self) -> (Vec<u32>, Vec<usize>); fn raw_edit(&mut self) -> bool; }
+impl Probe for BytesVec<usize, u32> {
+    fn snap(&mut self) -> (Vec<u32>, Vec<usize>) { let c = self.collect(); let h = std::ops::DerefMut::deref_mut(self).holes().iter().copied().collect(); (c, h) }
+    fn raw_edit(&mut self) -> bool { let r = std::ops::DerefMut::deref_mut(self); r.update(0, 99).unwrap(); r.delete_at(1); true }
+}
+impl Probe for PcoVec<usize, u32> {
+    fn snap(&mut self) -> (Vec<u32>, Vec<usize>) { (self.collect(), vec![]) }
+    fn raw_edit(&mut self) -> bool { false }
+}
+
+fn build<V: StoredVec<I = usize, T = u32> + Probe>(variant: usize) -> Option<(PathBuf, Database, V, Vec<(Vec<u32>, Vec<usize>)>)> {
     let path = scratch_dir("fault");
     let db = Database::open(&path).unwrap();
     let mut v = V::forced_import_with(opts(&db)).unwrap();
-    let mut states = vec![vec![]];
+    let mut states = vec![(vec![], vec![])];
     // three commits: grow, (variant) shrink-and-grow or grow, grow
     for x in [11u32, 12, 13] { v.push(x); }
-    v.stamped_write_with_changes(Stamp::new(1)).unwrap(); states.push(v.collect());
+    v.stamped_write_with_changes(Stamp::new(1)).unwrap(); states.push(v.snap());
     if variant == 1 { v.truncate_if_needed_at(1).unwrap(); }
+    if variant == 2 && !v.raw_edit() { drop(v); drop(db); rm(&path); return None; }     // variant 2: an update and a deletion of stored slots (raw formats)
     v.push(21); v.push(22);
-    v.stamped_write_with_changes(Stamp::new(2)).unwrap(); states.push(v.collect());
+    v.stamped_write_with_changes(Stamp::new(2)).unwrap(); states.push(v.snap());
     v.push(31);
-    v.stamped_write_with_changes(Stamp::new(3)).unwrap(); states.push(v.collect());
-    (path, db, v, states)
+    v.stamped_write_with_changes(Stamp::new(3)).unwrap(); states.push(v.snap());
+    Some((path, db, v, states))
 }
 
-fn one<V: StoredVec<I = usize, T = u32>>(variant: usize, target_stamp: u64, fault: &Fault, reimport: bool) -> Result<u64, (String, String)> {
-    let (path, db, v0, states) = build::<V>(variant);
+fn one<V: StoredVec<I = usize, T = u32> + Probe>(variant: usize, target_stamp: u64, fault: &Fault, reimport: bool) -> Result<u64, (String, String)> {
+    let Some((path, db, v0, states)) = build::<V>(variant) else { return Ok(0); };
     let mut vopt = Some(v0);
     let res = (|| {
         let mut v = vopt.take().unwrap();
@@ -61,26 +73,40 @@ fn one<V: StoredVec<I = usize, T = u32>>(variant: usize, target_stamp: u64, faul
                 if off + 8 > bytes.len() { return Ok(0); }
                 let mut b = bytes.clone(); b[off..off + 8].copy_from_slice(&val.to_le_bytes()); std::fs::write(file, &b).unwrap();
             }
+            Fault::Entry(which, j, val) => {
+                // the j-th (index, previous value) pair's index, or the j-th previous-hole index (raw formats)
+                let rd = |o: usize| -> Option<usize> { bytes.get(o..o + 8).map(|b| u64::from_le_bytes(b.try_into().unwrap()) as usize) };
+                let mut o = 32 + rd(24).unwrap_or(0) * 4;
+                o += 8 + rd(o).unwrap_or(0) * 4;
+                o += 8 + rd(o).unwrap_or(0) * 4;
+                let Some(nmod) = rd(o) else { return Ok(0); };
+                let mods_at = o + 8;
+                let holes_count_at = mods_at + nmod * 12;
+                let Some(nholes) = rd(holes_count_at) else { return Ok(0); };
+                let off = if *which == 0 { if *j >= nmod { return Ok(0); } mods_at + 8 * j } else { if *j >= nholes { return Ok(0); } holes_count_at + 8 + 8 * j };
+                if off + 8 > bytes.len() { return Ok(0); }
+                let mut b = bytes.clone(); b[off..off + 8].copy_from_slice(&val.to_le_bytes()); std::fs::write(file, &b).unwrap();
+            }
         }
         if reimport { drop(v); v = V::forced_import_with(opts(&db)).map_err(|e| ("C16.setup".to_string(), format!("re-import failed: {e}")))?; }
         // roll back step by step from stamp 3
         let mut cur = 3usize;
         loop {
-            let before = v.collect();
+            let before = v.snap();
             let stamp_before = u64::from(v.stamp());
             let r = v.rollback();
             if v.len() > 1000 {
                 // do not read: the vector now claims a length far beyond anything committed (reading would leave the mapping)
                 return Err(("C16.fault-uncommitted".into(), format!("rollback from stamp {cur} with {fault:?} on record {target_stamp} returned {} and the vector now reports length {} (committed states are {states:?})", if r.is_ok() { "Ok" } else { "Err" }, v.len())));
             }
-            let after = v.collect();
+            let after = v.snap();
             match r {
                 Ok(()) => {
                     if cur == 0 { return Err(("C16.window".into(), "rollback succeeded below the first commit".into())); }
                     // must be exactly the previous committed state
                     if after != states[cur - 1] {
                         let clause = if states.iter().any(|s| *s == after) { "C16.fault-wrongstate" } else { "C16.fault-uncommitted" };
-                        return Err((clause.into(), format!("rollback from stamp {cur} with {fault:?} on record {target_stamp} returned Ok and contents {after:?}; committed states are {states:?}")));
+                        return Err((clause.into(), format!("rollback from stamp {cur} with {fault:?} on record {target_stamp} returned Ok and contents / deleted slots {after:?}; committed states are {states:?}")));
                     }
                     cur -= 1;
                     if cur == 0 { break; }
@@ -102,11 +128,12 @@ fn one<V: StoredVec<I = usize, T = u32>>(variant: usize, target_stamp: u64, faul
 
 pub fn run() -> Report {
     let mut rep = Report { suite: "fault".into(), exhaustive: true, ..Default::default() };
-    rep.bound = "exhaustive single-file faults on a fixed 3-commit history (two variants: growing only / shrinking second commit), BytesVec and PcoVec, with and without re-import before rolling back: each of the 3 change records deleted, truncated at every byte offset, and every length field (prev_stored_len, stored_len, truncated count, prev_pushed length, pushed length, and on raw formats the modified and previous-holes counts) overwritten with 2^32, 2^63-1, 2^63, u64::MAX; then rollback step by step".into();
+    rep.bound = "exhaustive single-file faults on a fixed 3-commit history (three variants: growing only / shrinking second commit / on raw formats an update and a deletion of stored slots before the second commit), BytesVec and PcoVec, with and without re-import before rolling back: each of the 3 change records deleted, truncated at every byte offset, and every length field (prev_stored_len, stored_len, truncated count, prev_pushed length, pushed length, and on raw formats the modified and previous-holes counts) overwritten with 2^32, 2^63-1, 2^63, u64::MAX, and the first two modified-slot and previous-hole indices overwritten with 7, 2^32, u64::MAX-1, u64::MAX; then rollback step by step, comparing contents and deleted slots".into();
     let mut faults: Vec<Fault> = vec![Fault::Delete];
     for n in 0..200 { faults.push(Fault::Truncate(n)); }
     for k in 0..7 { for val in [1u64 << 32, (1u64 << 63) - 1, 1u64 << 63, u64::MAX] { faults.push(Fault::Field(k, val)); } }
-    for fmt in 0..2 { for variant in 0..2 { for target in 1..=3u64 { for reimport in [false, true] { for f in &faults {
+    for which in 0..2 { for j in 0..2 { for val in [7u64, 1u64 << 32, u64::MAX - 1, u64::MAX] { faults.push(Fault::Entry(which, j, val)); } } }
+    for fmt in 0..2 { for variant in 0..3 { for target in 1..=3u64 { for reimport in [false, true] { for f in &faults {
         rep.evaluations += 1;
         let hist = vec![format!("format={} history_variant={variant}", if fmt == 0 { "bytes" } else { "pco" }), format!("fault {f:?} on change record {target}"), format!("reimport={reimport}"), "rollback x3".to_string()];
         let r = std::panic::catch_unwind(|| if fmt == 0 { one::<BytesVec<usize, u32>>(variant, target, f, reimport) } else { one::<PcoVec<usize, u32>>(variant, target, f, reimport) });
